@@ -146,9 +146,15 @@ static int cmp_key(const void *a, const void *b, void *p)
     return sim_cmp((to ? to->dir : 1) * ((x->key > y->key) - (x->key < y->key)));
 }
 
+/* erased elements are the caller's again: some are kept (their node members scribbled on) and inserted again later -
+ * the same object, the same address */
+static struct telem *recycle[4]; static int nrecycle; static unsigned recycle_tick;
 static struct telem *new_elem(int key, int t)
 {
-    struct telem *e = simheap_alloc(sizeof *e, TAG_ELEM);
+    struct telem *e;
+    recycle_tick = recycle_tick * 1103515245u + 12345u;
+    if (nrecycle > 0 && (recycle_tick >> 16 & 1)) { e = recycle[--nrecycle]; PROBE("recycled_element_inserted"); }
+    else e = simheap_alloc(sizeof *e, TAG_ELEM);
     e->magic = MAGIC; e->tail = ~MAGIC;
     e->id = next_id++; e->key = key; e->tree = t; e->mark = 0;
     return e;
@@ -508,7 +514,7 @@ static void t_exec(const plan_t *p)
     keys = (int)p->cfg[CF_KEYS]; if (keys < 1) keys = 1;
     maxn = (int)p->cfg[CF_MAXN]; if (maxn < 1) maxn = 8; if (maxn > MAXN - 8) maxn = MAXN - 8;
     clear_frees = (int)p->cfg[CF_CLEARFREES];
-    next_id = 0; maxreach = 0;
+    next_id = 0; maxreach = 0; nrecycle = 0; recycle_tick = (unsigned)p->cfg[CF_JUNK] * 2654435761u;
     memset(bt, (int)(unsigned char)p->cfg[CF_JUNK], sizeof bt); memset(rb, (int)(unsigned char)p->cfg[CF_JUNK], sizeof rb);
     for (i = 0; i < NT; i++) tkind[i] = (int)(p->cfg[CF_STREAM] >> (12 + i) & 1);
     switch (p->cfg[CF_STREAM] >> 16 & 7) {
@@ -640,6 +646,12 @@ static void t_exec(const plan_t *p)
                 m->e[i] = m->e[--m->n];
                 EVT("erase", t, e->id, key);
                 e->tree = -1;
+                recycle_tick = recycle_tick * 1103515245u + 12345u;
+                if (nrecycle < 4 && (recycle_tick >> 16 & 3) == 0) {
+                    memset(&e->bn, 0xA5, sizeof e->bn); memset(&e->rn, 0xA5, sizeof e->rn);
+                    memset(&e->bn2, 0xA5, sizeof e->bn2); memset(&e->rn2, 0xA5, sizeof e->rn2);
+                    recycle[nrecycle++] = e;
+                } else
                 simheap_free(e);
             }
             break;
@@ -735,6 +747,7 @@ static void t_exec(const plan_t *p)
     {
         unsigned live = 0;
         for (i = 0; i < NT; i++) live += (unsigned)mt[i].n;
+        live += (unsigned)nrecycle;
         if (simheap_live_count(TAG_ELEM) != live)
             sim_harness_bug("trees: element accounting broken (%u live, model %u)", simheap_live_count(TAG_ELEM), live);
         if (simheap_live_count(TAG_LIB) != 0) sim_violation("C01/heap/unexpected_alloc", "tree code allocated memory");
